@@ -205,6 +205,22 @@ def table_form_cases(rep):
     wi = sorted('%s:%s=%s' % (s_, k, v) for s_, e in secs2 for k, v in e); gi = sorted(l for l in so.split('\n') if l.strip())
     if gi != wi: rep.dev('table-form-bare-section', dict(kind='table-form', name='bare-section'), 'listing misses %r, extra %r' % ([x for x in wi if x not in gi][:3], [x for x in gi if x not in wi][:3]), 'every item of the file once')
     else: rep.ok()
+    # a VALUE that contains colons and '=' signs (an expression with ? :): everything after the first '=' that follows the item's first colon is the value
+    pf = [('g(r, A)', 'A*r')]
+    secs3 = [('Tabulation', tabl), ('Pair', [('Al-O', 'g 2.0')]), ('Potential-Form', pf)]
+    nv = 'r < 2.5 ? A/r : 0.0'
+    ed3 = [('Tabulation', tabl), ('Pair', [('Al-O', 'g 2.0')]), ('Potential-Form', [('g(r, A)', nv)])]
+    for nm, argv in (('override-value-with-colon', ['--override-item', 'Potential-Form:g(r, A)=' + nv]),
+                     ('remove-add-value-with-colon', ['--remove-item', 'Potential-Form:g(r, A)', '--add-item', 'Potential-Form:g(r, A)=' + nv])):
+        rep.case('table-form', nm)
+        code, so, se, got = potable(argv, render([], secs3))
+        try: want = tabulate_text(render([], ed3))
+        except Exception as e: rep.dev('table-form-' + nm, dict(kind='table-form', name=nm), 'the hand-edited file is rejected: %r' % (e,), 'accepted'); continue
+        if got != want: rep.dev('table-form-' + nm, dict(kind='table-form', name=nm), 'exit %r (%s): output differs from the hand-edited file' % (code, se[-140:].replace('\n', ' ')), 'same bytes')
+        else:
+            code, so, se, _ = potable(argv + ['--item-value', 'Potential-Form:g(r, A)'], render([], secs3), want_out=False)
+            if so.strip() != nv: rep.dev('table-form-' + nm, dict(kind='table-form', name=nm, route='item-value'), 'item value %r' % so.strip()[:60], nv)
+            else: rep.ok()
     # an item of a missing table-form section is rejected as a configuration error
     rep.case('table-form', 'override-missing')
     code, so, se, got = potable(['--override-item', 'Table-Form:nope:x=1 2 3'], text)
